@@ -112,6 +112,10 @@ def main():
         sched.client_wait(spec['sched_sock'],
                           {'pid': os.getpid(), 'ppid': os.getppid(),
                            'verdict': v, 'ntoks': len(toks)})
+    if beh.get('out_hex'):
+        # raw bytes (not necessarily text)
+        sys.stdout.flush()
+        sys.stdout.buffer.write(bytes.fromhex(beh['out_hex']))
     sys.stdout.write(beh.get('out', ''))
     sys.stderr.write(beh.get('err', ''))
     sys.stdout.flush()
